@@ -161,7 +161,12 @@ def main():
     ev = dict(property_id=prop, tier=tier, seed=seed, level=frag["level_claimed"]["category"], coverage=cov,
               assumptions=frag.get("assumptions", []), wall_s=round(wall, 2), violations=n_viol)
     os.makedirs(os.path.join(VERIF, "evidence"), exist_ok=True)
-    json.dump(ev, open(os.path.join(VERIF, "evidence", prop + ".json"), "w"), indent=1, default=str)
+    if args.no_proof or args.replay or os.environ.get("VERIF_REPO"):
+        # debugging / replay / scratch-tree runs never overwrite the evidence of the real check
+        ev_path = os.path.join(VERIF, "build", "evidence-%s-debug.json" % prop)
+    else:
+        ev_path = os.path.join(VERIF, "evidence", prop + ".json")
+    json.dump(ev, open(ev_path, "w"), indent=1, default=str)
     print("%s: %s obligations=%d discharged=%d evaluations=%d distinct_nontrivial=%d violations=%d known=%d wall=%.1fs"
           % (prop, tier, obligations, discharged, ctx.evaluations, len(ctx.nontrivial), n_viol, len(printed_known), wall))
     sys.exit(1 if n_viol else 0)
